@@ -109,4 +109,26 @@ def stripAttrs (names : List String) : List (String × Val) → List (String × 
       if names.contains k then stripAttrs names rest else (k, stripA names v) :: stripAttrs names rest
 end
 
+mutual
+/-- the graph the property requires after skipping `types` at save time: every attribute that
+is an instance of a listed type removed, at every attribute-nested object level -/
+def stripT (ts : List String) : Val → Val
+  | .obj cls attrs => .obj cls (stripTAttrs ts attrs)
+  | v => v
+def stripTAttrs (ts : List String) : List (String × Val) → List (String × Val)
+  | [] => []
+  | (k, v) :: rest =>
+      if ts.any (isInstance v) then stripTAttrs ts rest else (k, stripT ts v) :: stripTAttrs ts rest
+end
+
+mutual
+/-- no attribute (at any attribute-nested level) is an instance of a listed type -/
+def typeFree (ts : List String) : Val → Bool
+  | .obj _ attrs => typeFreeAttrs ts attrs
+  | _ => true
+def typeFreeAttrs (ts : List String) : List (String × Val) → Bool
+  | [] => true
+  | (_, v) :: rest => !(ts.any (isInstance v)) && typeFree ts v && typeFreeAttrs ts rest
+end
+
 end QuantemModel.Serialize
